@@ -22,6 +22,25 @@ pub fn opt_u32(v: &Value) -> Option<u32> {
     }
 }
 
+/// An optional price: -1 = none, the specification's MaxPrice = u32::MAX
+pub fn opt_price(v: &Value) -> Option<u32> {
+    match v.as_i64() {
+        Some(x) if x == crate::SPEC_MAX_PRICE => Some(u32::MAX),
+        _ => opt_u32(v),
+    }
+}
+
+/// Does the path contain a modify request whose new price is off the grid of its book?
+/// (`ticks` per asset; labels without an asset field address asset 0.)
+pub fn has_offgrid_modify(path: &[Value], ticks: &[u32]) -> bool {
+    path.iter().any(|l| {
+        let is_mod = l["op"] == "modify" || ((l["op"] == "event" || l["op"] == "submit") && l["k"] == "modify");
+        let a = l.get("a").and_then(|x| x.as_u64()).unwrap_or(0) as usize;
+        let t = *ticks.get(a).unwrap_or(&1) as i64;
+        is_mod && t > 1 && l["p"].as_i64().map(|x| x >= 0 && x % t != 0).unwrap_or(false)
+    })
+}
+
 pub fn get_u64(l: &Value, k: &str) -> u64 {
     l.get(k).and_then(|x| x.as_u64()).unwrap_or_else(|| panic!("harness: label {} lacks {}", l, k))
 }
@@ -72,7 +91,7 @@ impl<const L: usize> BookDyn for OrderBook<L> {
                 let side = side_of(&l["side"]);
                 let vol = get_u64(l, "vol") as u32;
                 let tr = get_u64(l, "tr") as u32;
-                let price = opt_u32(&l["price"]);
+                let price = opt_price(&l["price"]);
                 let r = if op == "create" {
                     self.create_order(side, vol, tr, price)
                 } else {
@@ -92,7 +111,7 @@ impl<const L: usize> BookDyn for OrderBook<L> {
                 Value::Null
             }
             "modify" => {
-                self.modify_order(get_usize(l, "id"), opt_u32(&l["p"]), opt_u32(&l["v"]));
+                self.modify_order(get_usize(l, "id"), opt_price(&l["p"]), opt_u32(&l["v"]));
                 Value::Null
             }
             "event" => {
@@ -102,7 +121,7 @@ impl<const L: usize> BookDyn for OrderBook<L> {
                     Some("cancel") => Event::Cancellation { order_id: id },
                     Some("modify") => Event::Modify {
                         order_id: id,
-                        new_price: opt_u32(&l["p"]),
+                        new_price: opt_price(&l["p"]),
                         new_vol: opt_u32(&l["v"]),
                     },
                     _ => panic!("harness: bad event kind in {}", l),
